@@ -37,8 +37,8 @@ LEMMAS = "spec-level composition lemmas (round trip p_X(enc_X(x)+rest)==Ok(x), p
 GAPS = {
     "C01": [V5_REST, LEMMAS, "poll body phase is bounded (body length <= 4)"],
     "C02": [V5_REST, "F5-style oversize property sections: encode_len's precondition valid() excludes sections >= 2^28 bytes (the crate panics there instead of returning an error; not exercised by any obligation)"],
-    "C03": ["TopicFilter::is_invalid loop (assumed contract, bounded Kani stand-in)", "poll body phase is bounded (body length <= 4); memory-level initialisation of the MaybeUninit buffer is not machine-checked (A8)"],
-    "C04": ["TopicFilter::is_invalid loop (assumed contract, bounded Kani stand-in)", "composition poll-step o block_decode o new_with is on paper (DESIGN 2.3)"],
+    "C03": ["poll body phase is bounded (body length <= 4); memory-level initialisation of the MaybeUninit buffer is not machine-checked (A8)"],
+    "C04": ["composition poll-step o block_decode o new_with is on paper (DESIGN 2.3)"],
     "C05": ["two-reads-in-one-poll (merge) harnesses do not finish under CBMC within the time limit (thorough tier, reported undecided when they time out); schedule independence rests on the single-step contracts plus the structural argument of DESIGN 2.3", "body phase bounded (body length <= 4)"],
     "C06": ["agreement is by the dispatchers refining the same spec (p3_packet/p3_body, p5_packet/p5_body); the final step from poll-step contract (Kani, mock header) to the real Header impls is on paper"],
     "C07": [LEMMAS],
@@ -46,13 +46,13 @@ GAPS = {
     "C09": [V5_REST, "partial writes / Pending of an async sink live in tokio's WriteAll (A1, A3)"],
     "C10": [V5_REST],
     "C11": [V5_REST, LEMMAS],
-    "C12": ["TopicFilter::is_invalid loop (assumed contract, bounded Kani stand-in)"],
+    "C12": [],
     "C13": ["Protocol::new is a bounded Kani table (names <= 7 bytes), assumed by the Verus callers"],
     "C14": ["composite encoders: only error-comes-from-the-sink is proved per impl; 'only a prefix of enc()' is proved for the leaf writers and Packet::encode_async, and follows for composites by sequential composition (not machine-checked)"],
     "C15": [],
-    "C16": ["TopicFilter::is_invalid: the validator loop itself is not proved unboundedly; its contract (decision == filter_ok, cached separator) is checked by bounded Kani harnesses (8 prefix shapes + <= 3 symbolic characters over an 8-symbol alphabet) and assumed by the Verus callers"],
-    "C17": ["shared_group_name/shared_filter/shared_info/is_shared and Eq/Ord/Hash of TopicFilter are not under contract (str range indexing); only Deref, try_from and the cached separator (bounded Kani) are"],
-    "C18": ["TopicName::is_shared/is_sys (str::starts_with) not under contract"],
+    "C16": [],
+    "C17": ["Eq/Ord/Hash/Display of TopicFilter are not under contract (they only touch `inner`); str range indexing is a trusted wrapper (A4)"],
+    "C18": [],
     "C19": [],
     "C20": [],
 }
